@@ -20,14 +20,17 @@ Qed.
 
 (* identical content on both sides is merged without calling the resolver *)
 Theorem same_content_no_call dir n nc a ans :
+  n <> nc ->
   exists r, outcome dir n nc a a ans = Some r /\ r_calls r = 0 /\ r_seen r = None /\
             lookup (r_local r) (dir ++ [n]) = Some (File a) /\ lookup (r_remote r) (dir ++ [n]) = Some (File a) /\
             lookup (r_local r) (dir ++ [nc]) = None /\ lookup (r_remote r) (dir ++ [nc]) = None.
 Proof.
-  unfold outcome. rewrite N.eqb_refl. eexists. split; [reflexivity|]. simpl.
-  repeat split; try apply lookup_at_same; unfold at_; simpl.
-  all: destruct (path_eqb (dir ++ [n]) (dir ++ [nc])) eqn:E; try reflexivity.
-Abort.
+  intros Hn. unfold outcome. rewrite N.eqb_refl. eexists. split; [reflexivity|]. simpl.
+  rewrite (path_eqb_snoc_neq dir n nc Hn).
+  assert (Hrefl: forall p : path, path_eqb p p = true).
+  { induction p as [|x l IH]; simpl; [reflexivity|]. rewrite N.eqb_refl. exact IH. }
+  rewrite !Hrefl. auto 10.
+Qed.
 
 (* the resolver is called exactly once, with the true bytes of both sides, iff the contents differ *)
 Theorem called_once_with_true_bytes dir n nc a b ans r :
